@@ -290,6 +290,45 @@ def body_content_range(I, X, ops=("set", "unset")):
     return ok, {"header": hdr}
 
 
+def body_content_range_held(I, X, away="assign-none", attr="length"):
+    """a held Content-Range view keeps writing through: after the header was moved away from
+    it (property reset, header deleted or edited, another view changed), assigning one of its
+    attributes -- even to the value it already holds -- makes the header the view's text again"""
+    from werkzeug.sansio.response import Response
+
+    resp = Response()
+    a = X.int("a", 0, 98)
+    b = X.int("b", 1, 99)
+    L = X.int("L", 1, 99)
+    X.assume(pand(a < b, b <= L))
+    v = I.getattr(resp, "content_range")
+    I.call(v.set, (a, b, L))
+    if away == "assign-none":
+        I.setattr(resp, "content_range", None)
+    elif away == "del-header":
+        I.call(resp.headers.__delitem__, ("Content-Range",))
+    elif away == "direct-edit":
+        I.call(resp.headers.__setitem__, ("Content-Range", "bytes 5-9/100"))
+    else:
+        other = I.getattr(resp, "content_range")
+        I.setattr(other, "length", 100)
+    same = X.flag("same_value")
+    if attr == "length":
+        new = L if same else 100
+        I.setattr(v, "length", new)
+        exp = pconcat("bytes ", pstr(a), "-", pstr(b - 1), "/", pstr(new))
+    elif attr == "start":
+        new = a if same else 0
+        I.setattr(v, "start", new)
+        exp = pconcat("bytes ", pstr(new), "-", pstr(b - 1), "/", pstr(L))
+    else:
+        I.setattr(v, "units", "bytes" if same else "items")
+        exp = pconcat("bytes " if same else "items ", pstr(a), "-", pstr(b - 1), "/", pstr(L))
+    hdr = I.call(resp.headers.get, ("Content-Range",))
+    ok = hdr is not None and peq(hdr, exp)
+    return ok, {"header": hdr}
+
+
 def body_scalar(I, X, prop="content_length"):
     from werkzeug.sansio.response import Response
 
@@ -442,6 +481,10 @@ def obligations(tier, seed):
         for ops in itertools.product(WA_OPS, repeat=k):
             out.append({"name": f"www_authenticate[{start},{'+'.join(ops)}]", "body": "body_www_authenticate", "params": {"ops": list(ops), "start": start},
                         "opts": {"budget_s": 600, "ctx": ctx}, "witness": ops[:2] == ("set-param", "set-type") and start == "params"})
+    for away in ("assign-none", "del-header", "direct-edit", "second-view"):
+        for attr in ("length", "start", "units"):
+            out.append({"name": f"content_range_held[{away},{attr}]", "body": "body_content_range_held", "params": {"away": away, "attr": attr},
+                        "opts": {"budget_s": 600, "ctx": ctx}})
     for ops in itertools.product(["set", "unset", "set-length-none", "set-unsatisfied"], repeat=k):
         out.append({"name": f"content_range[{'+'.join(ops)}]", "body": "body_content_range", "params": {"ops": list(ops)},
                     "opts": {"budget_s": 600, "ctx": ctx}, "witness": ops[:2] == ("set", "unset")})
